@@ -409,4 +409,202 @@ def parseZoneExclusion (es : List Xml) : Option (Option (List Zone)) :=
 def zoneExclusionToXml (zs : List Zone) : List Xml :=
   if zs ≠ [] then [.node (outName "zoneExclusion") [] (zs.map zoneToXml) ""] else []
 
+/-! ### positionOffset (`handle_position_offset` / `position_offset_to_xml`, audioObject and alternativeValueSet) -/
+
+inductive PositionOffset where
+  | polar (azimuth elevation distance : Int)
+  | cartesian (x y z : Int)
+  deriving DecidableEq, Repr
+
+/-- one iteration of the loop in `handle_position_offset` -/
+def offsetStep (d : Dict Int) (e : Xml) : Option (Dict Int) :=
+  match attr? e "coordinate" with
+  | none => none                                                -- "missing coordinate attr"
+  | some c =>
+    if d.any (·.1 == c) then none                                -- "duplicate … coordinates specified"
+    else (loadsNum e.text).map fun v => d ++ [(c, v)]
+
+def subsetKeys {α} (d : Dict α) (ks : List String) : Bool := d.all (fun e => ks.contains e.1)
+
+/-- the end of `handle_position_offset`: `some none` = nothing stored (no `positionOffset` elements) -/
+def offsetFinish (d : Dict Int) : Option (Option PositionOffset) :=
+  if d.isEmpty then some none
+  else if subsetKeys d ["azimuth", "elevation", "distance"] then
+    some (some (.polar ((d.get? "azimuth").getD 0) ((d.get? "elevation").getD 0) ((d.get? "distance").getD 0)))
+  else if subsetKeys d ["X", "Y", "Z"] then
+    some (some (.cartesian ((d.get? "X").getD 0) ((d.get? "Y").getD 0) ((d.get? "Z").getD 0)))
+  else none
+
+/-- `handle_position_offset` on the `positionOffset` elements in visiting order -/
+def parsePositionOffset (es : List Xml) : Option (Option PositionOffset) :=
+  (es.foldlM offsetStep []).bind offsetFinish
+
+/-- `dump_coordinate` in `position_offset_to_xml`: zero components are not written -/
+def dumpOffset (coordinate : String) (v : Int) : List Xml :=
+  if v ≠ 0 then [elem "positionOffset" [("coordinate", coordinate)] (dumpsNum v)] else []
+
+/-- `position_offset_to_xml` -/
+def positionOffsetToXml : Option PositionOffset → List Xml
+  | none => []
+  | some (.polar az el di) => dumpOffset "azimuth" az ++ dumpOffset "elevation" el ++ dumpOffset "distance" di
+  | some (.cartesian x y z) => dumpOffset "X" x ++ dumpOffset "Y" y ++ dumpOffset "Z" z
+
+/-! ### audioProgrammeReferenceScreen (`handle_centre_position`, `handle_screen_width`, their `to_xml`) -/
+
+inductive CentrePosition where
+  | polar (azimuth elevation distance : Int)
+  | cartesian (x y z : Int)
+  deriving DecidableEq, Repr
+
+/-- the value of `screen_type` that goes with a centre position -/
+def CentrePosition.kind : CentrePosition → String
+  | .polar _ _ _ => "polar"
+  | .cartesian _ _ _ => "cartesian"
+
+/-- `handle_screen_type(kwargs, screen_type)`: the new value of `kwargs["screen_type"]`, `none` = raises -/
+def handleScreenType (cur : Option String) (t : String) : Option String :=
+  match cur with
+  | some c => if c = t then some c else none
+  | none => some t
+
+def attrNum? (e : Xml) (k : String) : Option Int := (attr? e k).bind loadsNum
+
+/-- `handle_centre_position`: the stored position and the new `screen_type`.  `PolarPosition(...)` validates
+azimuth ∈ [-180, 180], elevation ∈ [-90, 90], distance ≥ 0; a missing `distance` attribute is `1.0`. -/
+def handleCentrePosition (cur : Option String) (e : Xml) : Option (CentrePosition × String) :=
+  if hasKey e "X" && hasKey e "Y" && hasKey e "Z" then do
+    let x ← attrNum? e "X"
+    let y ← attrNum? e "Y"
+    let z ← attrNum? e "Z"
+    let t ← handleScreenType cur "cartesian"
+    some (.cartesian x y z, t)
+  else if hasKey e "azimuth" && hasKey e "elevation" then do
+    let az ← attrNum? e "azimuth"
+    let el ← attrNum? e "elevation"
+    let di ← if hasKey e "distance" then attrNum? e "distance" else some 100000
+    if -18000000 ≤ az ∧ az ≤ 18000000 ∧ -9000000 ≤ el ∧ el ≤ 9000000 ∧ 0 ≤ di then do
+      let t ← handleScreenType cur "polar"
+      some (.polar az el di, t)
+    else none
+  else none
+
+/-- `centre_position_to_xml` -/
+def centrePositionToXml : CentrePosition → Xml
+  | .cartesian x y z => elem "screenCentrePosition" [("X", dumpsNum x), ("Y", dumpsNum y), ("Z", dumpsNum z)] ""
+  | .polar az el di =>
+    elem "screenCentrePosition" [("azimuth", dumpsNum az), ("elevation", dumpsNum el), ("distance", dumpsNum di)] ""
+
+/-- `handle_screen_width`: the stored width and the new `screen_type` -/
+def handleScreenWidth (cur : Option String) (e : Xml) : Option (Int × String) :=
+  if hasKey e "X" then do
+    let w ← attrNum? e "X"
+    let t ← handleScreenType cur "cartesian"
+    some (w, t)
+  else if hasKey e "azimuth" then do
+    let w ← attrNum? e "azimuth"
+    let t ← handleScreenType cur "polar"
+    some (w, t)
+  else none
+
+/-- `screen_width_to_xml` (`cartesian` = `isinstance(obj, CartesianScreen)`) -/
+def screenWidthToXml (cartesian : Bool) (w : Int) : Xml :=
+  elem "screenWidth" [(if cartesian then "X" else "azimuth", dumpsNum w)] ""
+
+/-! ### audioObjectInteraction ranges (`handle_gainInteractionRange`, `handle_positionInteractionRange`) -/
+
+/-- `InteractionRange` for gains as `parse_gain` returns them -/
+structure GainRange where
+  min : Option Gain
+  max : Option Gain
+  deriving DecidableEq, Repr
+
+/-- `parse_gain_el_v1` / `parse_gain_el_v2` -/
+def parseGainEl (v2 : Bool) (e : Xml) : Option Gain :=
+  if v2 then parseGain e.text ((attr? e "gainUnit").getD "linear")
+  else if (attr? e "gainUnit").isSome then none               -- "gainUnit is a BS.2076-2 feature"
+  else (loadsNum e.text).map .linear
+
+/-- one iteration of the loop in `handle_gainInteractionRange` -/
+def gainRangeStep (v2 : Bool) (d : Dict Gain) (e : Xml) : Option (Dict Gain) :=
+  match attr? e "bound" with
+  | none => none                                                -- "missing bound attr"
+  | some b =>
+    if b ≠ "min" ∧ b ≠ "max" then none
+    else if d.any (·.1 == b) then none                           -- "specified multiple times"
+    else (parseGainEl v2 e).map fun g => d ++ [(b, g)]
+
+/-- `handle_gainInteractionRange` on the `gainInteractionRange` elements in visiting order;
+`some none` = nothing stored -/
+def parseGainRange (v2 : Bool) (es : List Xml) : Option (Option GainRange) :=
+  (es.foldlM (gainRangeStep v2) []).map fun d =>
+    if d.isEmpty then none else some ⟨d.get? "min", d.get? "max"⟩
+
+def linear? : Option Gain → Option Int
+  | some (.linear k) => some k
+  | _ => none
+
+/-- `gainInteractionRange_to_xml` (values on the printable grid; a gain read in dB is not on it) -/
+def gainRangeToXml : Option GainRange → List Xml
+  | none => []
+  | some r =>
+    (match linear? r.min with
+      | some k => [elem "gainInteractionRange" [("bound", "min")] (dumpsNum k)] | none => []) ++
+    (match linear? r.max with
+      | some k => [elem "gainInteractionRange" [("bound", "max")] (dumpsNum k)] | none => [])
+
+structure IRange where
+  min : Option Int
+  max : Option Int
+  deriving DecidableEq, Repr
+
+inductive PosRange where
+  | polar (azimuth elevation distance : IRange)
+  | cartesian (x y z : IRange)
+  deriving DecidableEq, Repr
+
+/-- one iteration of the loop in `handle_positionInteractionRange` -/
+def posRangeStep (st : Dict (Dict Int)) (e : Xml) : Option (Dict (Dict Int)) :=
+  match attr? e "bound" with
+  | none => none
+  | some b =>
+    if b ≠ "min" ∧ b ≠ "max" then none
+    else match attr? e "coordinate" with
+    | none => none
+    | some c =>
+      let inner := (st.get? c).getD []
+      if inner.any (·.1 == b) then none                          -- "duplicate coordinate … and bound"
+      else (loadsNum e.text).map fun v => st.set c (inner ++ [(b, v)])
+
+def irangeOf (st : Dict (Dict Int)) (c : String) : IRange :=
+  match st.get? c with
+  | some d => ⟨d.get? "min", d.get? "max"⟩
+  | none => ⟨none, none⟩
+
+/-- the end of `handle_positionInteractionRange` -/
+def posRangeFinish (st : Dict (Dict Int)) : Option (Option PosRange) :=
+  if subsetKeys st ["azimuth", "elevation", "distance"] then
+    some (if st.isEmpty then none
+      else some (.polar (irangeOf st "azimuth") (irangeOf st "elevation") (irangeOf st "distance")))
+  else if subsetKeys st ["X", "Y", "Z"] then
+    some (some (.cartesian (irangeOf st "X") (irangeOf st "Y") (irangeOf st "Z")))
+  else none
+
+def parsePosRange (es : List Xml) : Option (Option PosRange) :=
+  (es.foldlM posRangeStep []).bind posRangeFinish
+
+/-- the elements written for one coordinate -/
+def dumpIRange (coordinate : String) (r : IRange) : List Xml :=
+  (match r.min with
+    | some k => [elem "positionInteractionRange" [("bound", "min"), ("coordinate", coordinate)] (dumpsNum k)]
+    | none => []) ++
+  (match r.max with
+    | some k => [elem "positionInteractionRange" [("bound", "max"), ("coordinate", coordinate)] (dumpsNum k)]
+    | none => [])
+
+/-- `positionInteractionRange_to_xml` -/
+def posRangeToXml : Option PosRange → List Xml
+  | none => []
+  | some (.polar az el di) => dumpIRange "azimuth" az ++ dumpIRange "elevation" el ++ dumpIRange "distance" di
+  | some (.cartesian x y z) => dumpIRange "X" x ++ dumpIRange "Y" y ++ dumpIRange "Z" z
+
 end Earverif.XmlCustom
